@@ -10,11 +10,11 @@ RULE = ('Evaluation = one pair of adjacent reported bases. Groups: for consecuti
         're-merged) and with an empty exclusion list, pairwise distance of its layers\' bases >= min_sep(group '
         'base). Workloads: generated scenes; chains of 3-6 close flat layers seen by 1-3 biased ceilometers '
         '(repeated merges) x exclusion subsets; bi-/tri-modal and converging thick groups x look-back x '
-        'percentile x 1-3 separation bins x all row orders; engineered tie-at-the-look-back-cut scenes (simultaneous hits of several ceilometers, an outlier in the time step split by the cut). Non-trivial = pair closer than 2*min_sep; distinct = '
+        'percentile x 1-3 separation bins x all row orders; engineered tie-at-the-look-back-cut scenes (simultaneous hits of several ceilometers, an outlier in the time step split by the cut). Rising deck under a flat one with the limit of two separation bins placed between the group base taken on the rows as listed and the one in time order. Non-trivial = pair closer than 2*min_sep; distinct = '
         'hash of (rows, parameters, level, pair index).')
 ASSUMPTIONS = ['groups with a re-merge (final ncomp < raw) or with exclusion active are outside the layer clause and are only counted']
 REQUIRED = ['global_base_height_settings_differ', 'fam:sepprobe', 'sepprobe_below_threshold_merged', 'merge', 'chained_merges', 'split_raw_eq_final', 'gt1_sep_bin', 'merge_with_exclusion',
-            'split_lookback_lt100_coincident_stamps'] + \
+            'split_lookback_lt100_coincident_stamps', 'group_base_on_rows_and_on_time_order_in_different_bins'] + \
            ['split_lookback_lt100_' + o for o in scenes.ORDERS]
 SIZES = {'quick': dict(generic=200, chain=260, bimodal=520, tiecut=160), 'thorough': dict(generic=5000, chain=5000, bimodal=9000, tiecut=3000)}
 
@@ -44,13 +44,47 @@ def plan(tier, seed):
                 out.append({'fam': 'sepprobe', 's': seed, 'p': NUM, 'i': 500000 + j,
                             'k': {'min_sep': ms, 'eps': eps, 'base': base, 'order': scenes.ORDERS[j % 4], 'perc': [5, 50, 0][j % 3]}})
                 j += 1
+    for i in range(24 if tier == 'quick' else 400):
+        # the base of the whole group, taken on the rows as listed or in time order, falls either side of a
+        # MIN_SEP_LIMS entry (rising deck, look-back < 100, rows not time-ascending)
+        out.append({'fam': 'binstraddle', 's': seed, 'p': NUM, 'i': 600000 + i})
     for i in range(z['tiecut']):
         out.append({'fam': 'tiecut', 's': seed, 'p': NUM, 'i': 300000 + i, 'k': {'order': scenes.ORDERS[i % 4]}})
     return out
 
 
+def _base(hs, lookback, perc):
+    k = int(len(hs) * lookback / 100) or len(hs)
+    return float(np.percentile(np.asarray(hs[len(hs) - k:]), perc))
+
+
+def bin_straddle_case(desc):
+    rng = scenes.rng_for(desc['s'], NUM, desc['i'])
+    i = desc['i']
+    n = int(rng.integers(60, 100))
+    h0 = float(rng.choice([2900.0, 1400.0, 7000.0]))
+    rise = float(rng.uniform(150, 300))
+    gap = float(rng.uniform(520, 680))
+    rows = []
+    for t in range(n):
+        dt = -15.0 * (n - 1 - t)
+        rows.append(['C1', dt, h0 + rise * t / (n - 1), 1])                       # rising deck
+        rows.append(['C2', dt - [0.0, 0.4][i % 2], h0 + rise + gap + (t % 4), 1])     # flat deck above
+    order = ['desc', 'shuf', 'desc', 'mixed'][i % 4] if 'mixed' in scenes.ORDERS else ['desc', 'shuf'][i % 2]
+    rows = scenes.order_rows(rng, rows, order)
+    lookback = float([50, 30, 20][i % 3])
+    perc = float([5, 0, 10][(i // 3) % 3])
+    b_rows = _base([r[2] for r in rows], lookback, perc)
+    b_time = _base([r[2] for r in sorted(rows, key=lambda r: r[1])], lookback, perc)
+    lim = (b_rows + b_time) / 2
+    sc = {'rows': rows, 'names': ['C1', 'C2'], 'order': order, 'fam': 'binstraddle', 'bases_rows_time': [b_rows, b_time]}
+    call = {'MIN_SEP_VALS': [200.0, gap + rise + 150.0], 'MIN_SEP_LIMS': [lim], 'BASE_LVL_LOOKBACK_PERC': lookback,
+            'BASE_LVL_HEIGHT_PERC': perc}
+    return {'scene': sc, 'prm': {'call': call, 'glob': {}}}
+
+
 def check(desc):
-    case = pipeline.materialise(desc)
+    case = bin_straddle_case(desc) if desc['fam'] == 'binstraddle' else pipeline.materialise(desc)
     if desc['i'] % 6 in (0, 1) and desc['fam'] in ('bimodal', 'tiecut', 'chain'):
         # the global dictionary holds other base-height settings; the per-call dict names the packaged values
         case['prm']['glob'].update({'BASE_LVL_LOOKBACK_PERC': 35, 'BASE_LVL_HEIGHT_PERC': 60})
@@ -85,6 +119,11 @@ def check(desc):
             tags.add('split_lookback_lt100_coincident_stamps')
     if desc['fam'] == 'sepprobe' and ch.n_groups == 1 and ch.n_slices == 2:
         tags.add('sepprobe_below_threshold_merged')
+    if desc['fam'] == 'binstraddle' and ch.n_groups == 1:
+        b_rows, b_time = case['scene']['bases_rows_time']
+        lim = case['prm']['call']['MIN_SEP_LIMS'][0]
+        if b_rows < lim < b_time and abs(float(ch.groups['height_base'].iloc[0]) - b_time) < 1e-6:
+            tags.add('group_base_on_rows_and_on_time_order_in_different_bins')
     if case['prm']['glob']:
         tags.add('global_base_height_settings_differ')
     res['counters'].update({'group_pairs': n1, 'layer_pairs': n2, 'gmm_fits_observed': len(run.rec.of('best_gmm'))})
